@@ -3,9 +3,12 @@ Executable model of `dfir_lang::graph::flat_to_partitioned::partition_graph`
 (find_edge_barriers, find_access_group_ordering, find_subgraph_unionfind, make_subgraphs,
 make_loops_contiguous, mark_tick_boundary_handoffs) over an abstract flat graph.
 
-`topo_sort` / `SubgraphMerge` (graph_algorithms.rs) are *re-transcribed* here (`TopoSort.lean`,
-`Merge.lean`) so the driver can run; their specification is proved in project HvGraphAlg (C17), the
-theorems of this project take it as an explicit hypothesis where they need it.
+`SubgraphMerge` (graph_algorithms.rs) is *re-transcribed* here (`Merge.lean`) so the driver can run; the
+`topo_sort` it calls in `new` is a parameter `ts` of `partitionWith` — the driver runs `tsC17`, C17's transcription
+(`TopoC17.lean`), whose specification is proved in this project (`Props/C19.lean`); the window re-sort inside
+`try_merge` uses the own transcription `TopoSort.lean`.  Of the `SubgraphMerge` invariants, "no enemies in one
+group" is proved for this transcription (`Props/EnemiesSep.lean`); the range/order invariant is C17's, for its own
+transcription, and is covered here by the correspondence check.
 
 Decision tables (`node_color` degrees, `can_connect_colorize`, delay remap, `input_delaytype_fn`)
 come from `Gen/*.lean`, regenerated from the Rust source on every run.
